@@ -30,13 +30,13 @@ func (a *Addr) String() string  { return a.S }
 
 // Event is one tap record.
 type Event struct {
-	T    time.Duration // virtual time since network creation
-	Kind string        // pkt | pkt-lost | dial | dial-fail | swrite | sclose
-	Src  string
-	Dst  string
-	Conn int    // stream id for swrite/sclose/dial
-	Data []byte // packet or written bytes
-	Note string
+	T     time.Duration // virtual time since network creation
+	Kind  string        // pkt | pkt-lost | dial | dial-fail | swrite | sclose
+	Src   string
+	Dst   string
+	Conn  int    // stream id for swrite/sclose/dial
+	Data  []byte // packet or written bytes
+	Note  string
 	Delay time.Duration // pkt: latency of the (first) delivery
 }
 
